@@ -59,6 +59,10 @@ type Spec struct {
 	FocusFuncs []string `json:"focus_funcs,omitempty"`
 	// MapRange: package patterns scanned for range-over-map statements (C05);
 	// MapRangeOutside: "Recv.Func=reason" for sites deliberately not checked
+	// Pregen: Go programs (package main, under the harness overlay) that are
+	// run natively in /repo before the check; their standard output becomes
+	// the overlay file Out (e.g. data extracted from files of the current tree)
+	Pregen   []PregenSpec `json:"pregen,omitempty"`
 	MapRange        []string `json:"map_range,omitempty"`
 	MapRangeOutside []string `json:"map_range_outside,omitempty"` // e.g. "(*github.com/sarchlab/akita/v4/sim.SerialEngine).Run"
 	MaxPreempt *int     `json:"max_preempt,omitempty"`
@@ -69,6 +73,55 @@ type Spec struct {
 	PrefixBudget int `json:"prefix_budget,omitempty"`
 	Quick    TierSpec    `json:"quick"`
 	Thorough TierSpec    `json:"thorough"`
+}
+
+type PregenSpec struct {
+	Main string `json:"main"` // package path relative to /repo, e.g. "zzverif/c01extract"
+	Out  string `json:"out"`  // virtual file relative to /repo, e.g. "zzverif/c01data/data.go"
+}
+
+// runPregen executes the spec's pregen programs and publishes their outputs
+// through GOSYM_PREGEN (inherited by workers and used by buildOverlay).
+func runPregen(spec Spec) (cleanup func()) {
+	cleanup = func() {}
+	if len(spec.Pregen) == 0 || os.Getenv("GOSYM_PREGEN") != "" {
+		return
+	}
+	dir, err := os.MkdirTemp("", "gosym-pregen-")
+	if err != nil {
+		fatal(err)
+	}
+	cleanup = func() { os.RemoveAll(dir) }
+	exitCleanups = append(exitCleanups, cleanup)
+	ov, _ := buildOverlay()
+	ovj := map[string]map[string]string{"Replace": {}}
+	i := 0
+	for virt, content := range ov {
+		real := filepath.Join(dir, fmt.Sprintf("o%d.go", i))
+		i++
+		os.WriteFile(real, content, 0o644)
+		ovj["Replace"][virt] = real
+	}
+	b, _ := json.Marshal(ovj)
+	ovPath := filepath.Join(dir, "overlay.json")
+	os.WriteFile(ovPath, b, 0o644)
+	var parts []string
+	for k, pg := range spec.Pregen {
+		cmd := exec.Command("go", "run", "-overlay", ovPath, "./"+pg.Main)
+		cmd.Dir = repoDir
+		cmd.Env = append(os.Environ(), goEnv()...)
+		cmd.Stderr = os.Stderr
+		out, err := cmd.Output()
+		if err != nil {
+			cleanup()
+			fatal(fmt.Errorf("pregen %s failed: %v", pg.Main, err))
+		}
+		real := filepath.Join(dir, fmt.Sprintf("gen%d.go", k))
+		os.WriteFile(real, out, 0o644)
+		parts = append(parts, filepath.Join(repoDir, pg.Out)+"="+real)
+	}
+	os.Setenv("GOSYM_PREGEN", strings.Join(parts, ";"))
+	return
 }
 
 type TierSpec struct {
@@ -117,6 +170,13 @@ func buildOverlay() (map[string][]byte, []string) {
 		files = append(files, rel)
 		return nil
 	})
+	for _, kv := range strings.Split(os.Getenv("GOSYM_PREGEN"), ";") {
+		if i := strings.Index(kv, "="); i > 0 {
+			if b, err := os.ReadFile(kv[i+1:]); err == nil {
+				ov[kv[:i]] = b
+			}
+		}
+	}
 	sort.Strings(files)
 	return ov, files
 }
@@ -459,6 +519,8 @@ func checkMain(args []string) {
 		fatal(fmt.Errorf("no entries for tier %s", *tier))
 	}
 
+	defer runPregen(spec)()
+
 	// start workers
 	nw := *jobs
 	workers := make([]*worker, 0, nw)
@@ -729,6 +791,7 @@ func replayMain(args []string) {
 	if err := json.Unmarshal(b, &rf); err != nil {
 		fatal(err)
 	}
+	defer runPregen(spec)()
 	rp := newReplayer(spec.Entries, spec.Focus, spec.FocusFuncs)
 	defer rp.close()
 	if rp.err != nil {
